@@ -702,3 +702,730 @@ Proof.
   intros h fs latest prev Hl Hp. unfold Src_add_mapper_to_aggregation. apply src_add_fuel; [|assumption|assumption].
   cbn [heights fold_right]. lia.
 Qed.
+
+(* ------------------------------------------------------------------ the model stays inside its domain *)
+
+Lemma ascii_up c : ascii_char c = true -> ascii_char (up c) = true.
+Proof.
+  unfold ascii_char, up, is_lower. intros H. apply N.ltb_lt in H.
+  destruct ((97 <=? c) && (c <=? 122)); apply N.ltb_lt; lia.
+Qed.
+
+Lemma ascii_low c : ascii_char c = true -> ascii_char (low c) = true.
+Proof.
+  unfold ascii_char, low, is_upper. intros H.
+  destruct ((65 <=? c) && (c <=? 90)) eqn:E; [|exact H].
+  apply andb_true_iff in E as [_ E]. apply N.leb_le in E. apply N.ltb_lt. lia.
+Qed.
+
+Lemma ascii_upper_str s : ascii_str s = true -> ascii_str (upper s) = true.
+Proof.
+  unfold ascii_str, upper. induction s as [|c t IH]; [reflexivity|].
+  cbn [map forallb]. intros H. apply andb_true_iff in H as [H1 H2].
+  rewrite (ascii_up c H1). apply IH. exact H2.
+Qed.
+
+Lemma ascii_title_aux : forall s b, ascii_str s = true -> ascii_str (title_aux b s) = true.
+Proof.
+  unfold ascii_str. induction s as [|c t IH]; intros b H; [reflexivity|].
+  cbn [forallb] in H. apply andb_true_iff in H as [H1 H2]. cbn [title_aux].
+  destruct (is_lower c || is_upper c); cbn [forallb].
+  - destruct b; [rewrite (ascii_low c H1)|rewrite (ascii_up c H1)]; apply IH; exact H2.
+  - rewrite H1. apply IH. exact H2.
+Qed.
+
+Lemma ascii_concat_title ws : forallb ascii_str ws = true -> ascii_str (concat (map title ws)) = true.
+Proof.
+  induction ws as [|w t IH]; [reflexivity|]. cbn [forallb map concat]. intros H.
+  apply andb_true_iff in H as [H1 H2]. rewrite ascii_str_app. unfold title.
+  rewrite (ascii_title_aux w false H1). apply IH. exact H2.
+Qed.
+
+Lemma ascii_camel s : ascii_str s = true -> ascii_str (camel s) = true.
+Proof.
+  intros Hs. unfold camel, split_on.
+  pose proof (split_aux_ascii us s [] eq_refl Hs) as Hall.
+  destruct (split_aux us [] s) as [|w ws]; [reflexivity|].
+  cbn [forallb] in Hall. apply andb_true_iff in Hall as [Hw Hws].
+  rewrite ascii_str_app, Hw. apply ascii_concat_title. exact Hws.
+Qed.
+
+Lemma str_in_alist_set {A} (l : list (pystr * A)) k v x :
+  str_in x (map fst (alist_set l k v)) = str_in x (map fst l) || pystr_eqb x k.
+Proof.
+  induction l as [|[k' v'] t IH]; cbn [alist_set map fst str_in existsb].
+  - rewrite orb_false_r. reflexivity.
+  - destruct (pystr_eqb k' k) eqn:E; cbn [map fst str_in existsb].
+    + apply pystr_eqb_spec in E. subst. destruct (pystr_eqb x k); cbn [orb]; [reflexivity|].
+      rewrite orb_false_r. reflexivity.
+    + unfold str_in in IH. rewrite IH. rewrite orb_assoc. reflexivity.
+Qed.
+
+Lemma keys_unique_set {A} (l : list (pystr * A)) k v :
+  keys_unique (map fst l) = true -> keys_unique (map fst (alist_set l k v)) = true.
+Proof.
+  induction l as [|[k' v'] t IH]; intros H; [reflexivity|].
+  cbn [map fst keys_unique] in H. apply andb_true_iff in H as [H1 H2]. apply negb_true_iff in H1.
+  cbn [alist_set]. destruct (pystr_eqb k' k) eqn:E; cbn [map fst keys_unique].
+  - rewrite H1, H2. reflexivity.
+  - rewrite str_in_alist_set, H1, E, (IH H2). reflexivity.
+Qed.
+
+Lemma forallb_alist_set {A} (P : pystr * A -> bool) (l : list (pystr * A)) k v :
+  forallb P l = true -> P (k, v) = true -> (forall k' v', pystr_eqb k' k = true -> P (k', v') = P (k, v')) ->
+  forallb P (alist_set l k v) = true.
+Proof.
+  intros Hl Hkv Hcompat. induction l as [|[k' v'] t IH]; cbn [alist_set forallb]; [rewrite Hkv; reflexivity|].
+  cbn [forallb] in Hl. apply andb_true_iff in Hl as [H1 H2].
+  destruct (pystr_eqb k' k) eqn:E; cbn [forallb].
+  - rewrite (Hcompat k' v E), Hkv, H2. reflexivity.
+  - rewrite H1. apply IH. exact H2.
+Qed.
+
+Lemma amap_wf_set acc k v :
+  amap_wf acc = true -> ascii_str k = true -> mval_wf v = true -> amap_wf (alist_set acc k v) = true.
+Proof.
+  rewrite !amap_wf_eq. intros H Hk Hv. apply andb_true_iff in H as [H1 H2].
+  rewrite (keys_unique_set acc k v H1). cbn [andb].
+  apply forallb_alist_set; [exact H2|unfold entry_wf; cbn [fst snd]; rewrite Hk, Hv; reflexivity|].
+  intros k' v' E. apply pystr_eqb_spec in E. subst. reflexivity.
+Qed.
+
+Lemma apply_key_wf latest s :
+  mapper_wf latest = true -> ascii_str s = true -> mval_wf (apply_key latest s) = true.
+Proof.
+  intros Hl Hs. destruct latest as [d| |]; cbn [apply_key mval_wf].
+  - destruct (alist_get d s) as [v|] eqn:E; [apply (alist_get_wf d s v Hl E)|exact Hs].
+  - apply ascii_upper_str. exact Hs.
+  - apply ascii_camel. exact Hs.
+Qed.
+
+Lemma ascii_suffix k : ascii_str k = true -> ascii_str (k ++ suffix) = true.
+Proof. intros H. rewrite ascii_str_app, H. reflexivity. Qed.
+
+Lemma add_loop_wf fs latest rec :
+  forall l acc r,
+    (forall k v sub r', In (k, v) l -> mapper_wf sub = true -> rec sub v = Ok r' -> mval_wf r' = true) ->
+    mapper_wf latest = true -> amap_wf l = true -> amap_wf acc = true ->
+    add_loop fs latest rec l acc = Ok r -> amap_wf r = true.
+Proof.
+  induction l as [|[k v] t IH]; intros acc r Hrec Hl Hw Hacc Hr.
+  - cbn [add_loop] in Hr. inversion Hr; subst. exact Hacc.
+  - apply amap_wf_cons in Hw as (_ & Hk & Hv & Ht).
+    cbn [add_loop] in Hr.
+    destruct (add_step fs latest rec (k, v) acc) as [a|e] eqn:Es; cbn [bind] in Hr; [|discriminate].
+    apply (IH a r); try assumption.
+    + intros k0 v0 sub r' Hin. apply (Hrec k0 v0 sub r'). right. exact Hin.
+    + clear Hr IH. cbn [add_step] in Es.
+      destruct (shortcut latest k v).
+      { inversion Es; subst. apply amap_wf_set; assumption. }
+      destruct v as [s| |p].
+      * inversion Es; subst. apply amap_wf_set; [assumption|assumption|]. apply apply_key_wf; assumption.
+      * inversion Es; subst. apply amap_wf_set; [assumption|assumption|reflexivity].
+      * rewrite ends_with_suffix_spec in Es.
+        destruct (str_endswith k suffix); [|discriminate].
+        set (fname := firstn (length k - 8) k) in *.
+        assert (Hfn : ascii_str fname = true) by (apply ascii_firstn; exact Hk).
+        assert (Hmk : exists mk, (if fs then @Ok pystr fname
+                                  else match apply_key latest fname with Key s => Ok s | _ => Raise Unmodelled end)
+                                 = Ok mk /\ ascii_str mk = true).
+        { destruct fs; [eauto|].
+          pose proof (apply_key_wf latest fname Hl Hfn) as Hak.
+          destruct (apply_key latest fname) as [s| |q]; try (cbv beta iota in Es; cbn [bind] in Es; discriminate).
+          eauto. }
+        destruct Hmk as (mk & Emk & Hmka). rewrite Emk in Es. cbn [bind] in Es.
+        assert (Hkey : ascii_str (mk ++ suffix) = true) by (apply ascii_suffix; exact Hmka).
+        destruct (sub_of latest mk fname) as [|sub|] eqn:Esub.
+        -- inversion Es; subst. apply amap_wf_set; assumption.
+        -- destruct (rec sub (Sub p)) as [r'|e] eqn:Er; cbn [bind] in Es; [|discriminate].
+           inversion Es; subst. apply amap_wf_set; [assumption|assumption|].
+           apply (Hrec k (Sub p) sub r'); [left; reflexivity| |exact Er].
+           unfold sub_of in Esub. destruct latest as [d| |]; try (inversion Esub; subst; reflexivity).
+           destruct (alist_get d (mk ++ suffix)) as [x|] eqn:E1.
+           ++ destruct x as [[|c s]| |[|e q]]; try discriminate. inversion Esub; subst.
+              apply (alist_get_wf d _ _ Hl E1).
+           ++ destruct (alist_get d (fname ++ suffix)) as [x|] eqn:E2; [|discriminate].
+              destruct x as [[|c s]| |[|e q]]; try discriminate. inversion Esub; subst.
+              apply (alist_get_wf d _ _ Hl E2).
+        -- discriminate.
+Qed.
+
+Lemma add_val_wf fs : forall v latest r,
+    mapper_wf latest = true -> mval_wf v = true -> add_val fs latest v = Ok r -> mval_wf r = true.
+Proof.
+  induction v as [s| |p IHp] using mval_ind'; intros latest r Hl Hv Hr; try discriminate.
+  cbn [add_val] in Hr.
+  destruct (add_loop fs latest (fun sub v' => add_val fs sub v') p []) as [a|e] eqn:Ea; cbn [bind] in Hr; [|discriminate].
+  inversion Hr; subst. change (mval_wf (Sub a)) with (amap_wf a).
+  apply (add_loop_wf fs latest (fun sub v' => add_val fs sub v') p [] a); try assumption; [|reflexivity].
+  intros k v sub r' Hin Hsub Hrec.
+  rewrite Forall_forall in IHp. apply (IHp (k, v) Hin sub r' Hsub); [|exact Hrec].
+  apply (amap_wf_in p k v Hv Hin).
+Qed.
+
+Lemma add_agg_wf fs latest prev r :
+  mapper_wf latest = true -> amap_wf prev = true -> add_agg fs latest prev = Ok r -> amap_wf r = true.
+Proof.
+  intros Hl Hp Hr. unfold add_agg in Hr.
+  destruct (add_val fs latest (Sub prev)) as [v|e] eqn:Ev; cbn [bind] in Hr; [|discriminate].
+  pose proof (add_val_wf fs (Sub prev) latest v Hl Hp Ev) as Hv.
+  destruct v; try discriminate. inversion Hr; subst. exact Hv.
+Qed.
+
+Lemma fold_add_raise fs L e : fold_add fs L (Raise e) = Raise e.
+Proof. unfold fold_add. induction L as [|m t IH]; [reflexivity|]. cbn [fold_left bind]. exact IH. Qed.
+
+Lemma fold_add_cons fs m t a : fold_add fs (m :: t) (Ok a) = fold_add fs t (add_agg fs m a).
+Proof. reflexivity. Qed.
+
+Lemma fold_add_app fs A B base : fold_add fs (A ++ B) base = fold_add fs B (fold_add fs A base).
+Proof. unfold fold_add. apply fold_left_app. Qed.
+
+Lemma fold_add_wf fs : forall L a r,
+    forallb mapper_wf L = true -> amap_wf a = true -> fold_add fs L (Ok a) = Ok r -> amap_wf r = true.
+Proof.
+  induction L as [|m t IH]; intros a r HL Ha Hr.
+  - inversion Hr; subst. exact Ha.
+  - cbn [forallb] in HL. apply andb_true_iff in HL as [Hm Ht]. rewrite fold_add_cons in Hr.
+    destruct (add_agg fs m a) as [a'|e] eqn:Ea; [|rewrite fold_add_raise in Hr; discriminate].
+    apply (IH a' r Ht); [|exact Hr]. apply (add_agg_wf fs m a a' Hm Ha Ea).
+Qed.
+
+(* ------------------------------------------------------------------ classes *)
+
+(* strong induction on class descriptions *)
+Section classdef_ind_strong.
+  Variable P : classdef -> Prop.
+  Hypothesis HClass : forall fields ms,
+      Forall (fun f => match snd f with Some (_, c') => P c' | None => True end) fields -> P (Class fields ms).
+  Fixpoint classdef_ind' (c : classdef) : P c :=
+    match c with
+    | Class fields ms =>
+        HClass fields ms
+          ((fix go (fs : list (pystr * option (ckind * classdef)))
+             : Forall (fun f => match snd f with Some (_, c') => P c' | None => True end) fs :=
+              match fs with
+              | [] => Forall_nil _
+              | (k, None) :: t => Forall_cons (k, None) I (go t)
+              | (k, Some (kd, c')) :: t => Forall_cons (k, Some (kd, c')) (classdef_ind' c') (go t)
+              end) fields)
+    end.
+End classdef_ind_strong.
+
+Fixpoint class_wf (c : classdef) : bool :=
+  match c with
+  | Class fields ms =>
+      forallb mapper_wf ms &&
+      (fix go (fs : list (pystr * option (ckind * classdef))) : bool :=
+         match fs with
+         | [] => true
+         | (k, None) :: t => ascii_str k && go t
+         | (k, Some (_, c')) :: t => ascii_str k && class_wf c' && go t
+         end) fields
+  end.
+
+Definition field_wf (f : pystr * option (ckind * classdef)) : bool :=
+  ascii_str (fst f) && match snd f with Some (_, c') => class_wf c' | None => true end.
+
+Lemma class_wf_eq fields ms : class_wf (Class fields ms) = forallb mapper_wf ms && forallb field_wf fields.
+Proof.
+  cbn [class_wf]. f_equal. induction fields as [|[k [[kd c']|]] t IH]; [reflexivity| |];
+    cbn [forallb]; unfold field_wf at 1; cbn [fst snd]; rewrite <- IH; [reflexivity|].
+  rewrite andb_true_r. reflexivity.
+Qed.
+
+Definition override_wf (o : option amap) : bool := match o with Some d => amap_wf d | None => true end.
+
+Definition nested_kinds : list pystr :=
+  [s2p "ClassReference"; s2p "Array"; s2p "Set"; s2p "StructureReference"].
+
+(* a Field object that the four isinstance tests of _set_base_mapper_no_op all reject *)
+Definition plain_field (v : pyval) : bool :=
+  match v with
+  | PStruct c _ =>
+      PyOpsFields.class_known mappers_class_table c &&
+      negb (PyOpsFields.class_in mappers_class_table c nested_kinds)
+  | _ => false
+  end.
+
+Example plain_field_satisfiable :
+  plain_field (PStruct (s2p "Integer") []) = true /\ plain_field (PStruct (s2p "String") []) = true /\
+  plain_field (PStruct (s2p "Map") []) = true /\ plain_field (PStruct (s2p "ImmutableSet") []) = false.
+Proof. repeat split; vm_compute; reflexivity. Qed.
+
+Definition cref (c : pyval) : pyval := PStruct (s2p "ClassReference") [(s2p "_ty", c)].
+Definition coll (kd : ckind) (c : pyval) : pyval :=
+  PStruct (match kd with KSet => s2p "Set" | _ => s2p "Array" end) [(s2p "items", cref c)].
+
+Section Classes.
+  Variable plain : pystr -> pyval.
+  Hypothesis plain_ok : forall k, plain_field (plain k) = true.
+
+  Fixpoint enc_class (c : classdef) : pyval :=
+    match c with
+    | Class fields ms =>
+        PStruct (s2p "StructMeta")
+          [(s2p "get_all_fields_by_name()",
+            PDict ((fix go (fs : list (pystr * option (ckind * classdef))) : list (pyval * pyval) :=
+                      match fs with
+                      | [] => []
+                      | (k, None) :: t => (PStr k, plain k) :: go t
+                      | (k, Some (KRef, c')) :: t => (PStr k, cref (enc_class c')) :: go t
+                      | (k, Some (kd, c')) :: t => (PStr k, coll kd (enc_class c')) :: go t
+                      end) fields));
+           (s2p "get_aggregated_serialization_mapper()", PList (map enc_mapper ms));
+           (s2p "get_aggregated_deserialization_mapper()", PList (map enc_mapper ms))]
+    end.
+
+  Definition enc_field (f : pystr * option (ckind * classdef)) : pyval * pyval :=
+    (PStr (fst f),
+     match snd f with
+     | None => plain (fst f)
+     | Some (KRef, c') => cref (enc_class c')
+     | Some (kd, c') => coll kd (enc_class c')
+     end).
+
+  Lemma enc_class_eq fields ms :
+    enc_class (Class fields ms) =
+    PStruct (s2p "StructMeta")
+      [(s2p "get_all_fields_by_name()", PDict (map enc_field fields));
+       (s2p "get_aggregated_serialization_mapper()", PList (map enc_mapper ms));
+       (s2p "get_aggregated_deserialization_mapper()", PList (map enc_mapper ms))].
+  Proof.
+    cbn [enc_class]. do 4 f_equal.
+    induction fields as [|[k [[[| |] c']|]] t IH]; [reflexivity| | | |]; cbn [map]; rewrite <- IH; reflexivity.
+  Qed.
+
+  Definition enc_override (o : option amap) : pyval := match o with Some d => enc_amap d | None => PNone end.
+
+  (* ---- heights: the fuel the wrappers supply is enough *)
+  Lemma height_struct1 n a x : py_height (PStruct n [(a, x)]) = S (Nat.max (py_height x) 0).
+  Proof. reflexivity. Qed.
+
+  Lemma height_class fields ms :
+    (S (S (dict_height (map enc_field fields))) <= py_height (enc_class (Class fields ms)))%nat.
+  Proof.
+    rewrite enc_class_eq.
+    change (py_height (PStruct (s2p "StructMeta")
+                               [(s2p "get_all_fields_by_name()", PDict (map enc_field fields));
+                                (s2p "get_aggregated_serialization_mapper()", PList (map enc_mapper ms));
+                                (s2p "get_aggregated_deserialization_mapper()", PList (map enc_mapper ms))]))
+      with (S (Nat.max (py_height (PDict (map enc_field fields)))
+                       (Nat.max (py_height (PList (map enc_mapper ms)))
+                                (Nat.max (py_height (PList (map enc_mapper ms))) 0)))).
+    rewrite py_height_dict. lia.
+  Qed.
+
+  Lemma height_nested fields ms k kd c' :
+    In (k, Some (kd, c')) fields ->
+    (py_height (enc_class c') + 3 <= py_height (enc_class (Class fields ms)))%nat.
+  Proof.
+    intros Hin. pose proof (height_class fields ms) as H.
+    assert (Hi : In (PStr k, match kd with KRef => cref (enc_class c') | _ => coll kd (enc_class c') end)
+                    (map enc_field fields)) by (apply (in_map enc_field _ _ Hin)).
+    pose proof (dict_height_in _ _ _ Hi) as Hd.
+    assert (Hc : (S (py_height (enc_class c')) <=
+                  py_height (match kd with KRef => cref (enc_class c') | _ => coll kd (enc_class c') end))%nat).
+    { destruct kd; cbv beta iota; unfold coll, cref; rewrite ?height_struct1, ?Nat.max_0_r; lia. }
+    destruct kd; cbv beta iota in Hc, Hd; lia.
+  Qed.
+
+  (* ---- the tests of _set_base_mapper_no_op on the field objects (computed on the GENERATED class table) *)
+  Lemma plain_tests k :
+    m_isinstance mappers_class_table (plain k) [MC_cls (s2p "ClassReference")] = Ok false /\
+    m_isinstance mappers_class_table (plain k) [MC_cls (s2p "Array"); MC_cls (s2p "Set")] = Ok false /\
+    m_isinstance mappers_class_table (plain k) [MC_cls (s2p "StructureReference")] = Ok false.
+  Proof.
+    pose proof (plain_ok k) as H. destruct (plain k) as [| | | | | | | | | |c attrs|]; try discriminate.
+    cbn [plain_field] in H. apply andb_true_iff in H as [Hk Hn]. apply negb_true_iff in Hn.
+    unfold PyOpsFields.class_in, nested_kinds in Hn. cbn [existsb] in Hn.
+    apply orb_false_iff in Hn as [H1 Hn]. apply orb_false_iff in Hn as [H2 Hn].
+    apply orb_false_iff in Hn as [H3 Hn]. apply orb_false_iff in Hn as [H4 _].
+    cbn [m_isinstance m_isinstance1 bind]. rewrite Hk. cbn [bind]. rewrite H1, H2, H3, H4. auto.
+  Qed.
+
+  Lemma cref_tests x :
+    m_isinstance mappers_class_table (cref x) [MC_cls (s2p "ClassReference")] = Ok true /\
+    m_isinstance mappers_class_table (cref x) [MC_cls (s2p "Field")] = Ok true.
+  Proof. split; reflexivity. Qed.
+
+  Lemma coll_tests kd x :
+    kd <> KRef ->
+    m_isinstance mappers_class_table (coll kd x) [MC_cls (s2p "ClassReference")] = Ok false /\
+    m_isinstance mappers_class_table (coll kd x) [MC_cls (s2p "Array"); MC_cls (s2p "Set")] = Ok true.
+  Proof. intros H. destruct kd; [contradiction| |]; split; reflexivity. Qed.
+
+  (* ---- the loops *)
+  Lemma dict_set_absent (m : amap) k v :
+    str_in k (map fst m) = false -> dict_set (enc_items m) (PStr k) v = enc_items m ++ [(PStr k, v)].
+  Proof.
+    induction m as [|[k' v'] t IH]; [reflexivity|].
+    cbn [map fst str_in existsb]. intros H. apply orb_false_iff in H as [H1 H2].
+    change (enc_items ((k', v') :: t)) with ((PStr k', enc_mval v') :: enc_items t).
+    cbn [dict_set app]. change (py_eq (PStr k') (PStr k)) with (pystr_eqb k' k).
+    rewrite pystr_eqb_sym, H1. f_equal. apply IH. exact H2.
+  Qed.
+
+  (* values = {}; values.update(val)  for a real dict val: a copy of it *)
+  Lemma update_fresh : forall (m a : amap),
+      keys_unique (map fst (a ++ m)) = true ->
+      fold_left (fun acc p => dict_set acc (fst p) (snd p)) (enc_items m) (enc_items a) = enc_items (a ++ m).
+  Proof.
+    induction m as [|[k v] t IH]; intros a H; [rewrite app_nil_r; reflexivity|].
+    change (enc_items ((k, v) :: t)) with ((PStr k, enc_mval v) :: enc_items t).
+    cbn [fold_left fst snd].
+    assert (Hk : str_in k (map fst a) = false).
+    { clear IH. induction a as [|[k' v'] u IHu]; [reflexivity|].
+      cbn [app map fst keys_unique] in H. apply andb_true_iff in H as [H1 H2]. apply negb_true_iff in H1.
+      specialize (IHu H2).
+      rewrite map_app in H1. unfold str_in in H1. rewrite existsb_app in H1.
+      apply orb_false_iff in H1 as [_ H1]. cbn [map fst existsb] in H1.
+      apply orb_false_iff in H1 as [H1 _].
+      unfold str_in in *. cbn [map fst existsb]. rewrite IHu, orb_false_r, pystr_eqb_sym. exact H1. }
+    rewrite (dict_set_absent a k (enc_mval v) Hk).
+    change (enc_items a ++ [(PStr k, enc_mval v)]) with (enc_items a ++ enc_items [(k, v)]).
+    unfold enc_items at 2 3. rewrite <- map_app. fold (enc_items (a ++ [(k, v)])).
+    rewrite (IH (a ++ [(k, v)])); rewrite <- app_assoc; [reflexivity|exact H].
+  Qed.
+
+  Lemma m_dict_update_fresh (m : amap) :
+    amap_wf m = true -> m_dict_update (enc_amap []) (enc_amap m) = Ok (enc_amap m).
+  Proof.
+    intros H. rewrite amap_wf_eq in H. apply andb_true_iff in H as [H _].
+    unfold m_dict_update, enc_amap.
+    rewrite (update_fresh m [] H). reflexivity.
+  Qed.
+
+  Lemma foldM_base_loop (F : pyval -> pyval * pyval -> res pyval) rec fields : forall acc,
+      (forall acc f, In f fields -> F (enc_amap acc) (enc_field f) = enc_res (base_step rec f acc)) ->
+      foldM F (map enc_field fields) (enc_amap acc) = enc_res (base_loop rec fields acc).
+  Proof.
+    induction fields as [|f t IH]; intros acc HF; [reflexivity|].
+    cbn [map foldM base_loop]. rewrite (HF acc f (or_introl eq_refl)).
+    destruct (base_step rec f acc) as [a|e]; cbn [enc_res bind]; [|reflexivity].
+    apply IH. intros acc' f' Hin. apply HF. right. exact Hin.
+  Qed.
+
+  Lemma foldM_fold_add (F : pyval -> pyval -> res pyval) fs ms : forall base,
+      forallb mapper_wf ms = true -> amap_wf base = true ->
+      (forall a m, In m ms -> amap_wf a = true -> F (enc_amap a) (enc_mapper m) = enc_res (add_agg fs m a)) ->
+      foldM F (map enc_mapper ms) (enc_amap base) = enc_res (fold_add fs ms (Ok base)).
+  Proof.
+    induction ms as [|m t IH]; intros base Hms Hb HF; [reflexivity|].
+    cbn [forallb] in Hms. apply andb_true_iff in Hms as [Hm Ht].
+    cbn [map foldM]. rewrite fold_add_cons, (HF base m (or_introl eq_refl) Hb).
+    destruct (add_agg fs m base) as [a|e] eqn:Ea; cbn [enc_res bind]; [|rewrite fold_add_raise; reflexivity].
+    apply IH; [exact Ht|apply (add_agg_wf fs m base a Hm Hb Ea)|].
+    intros a' m' Hin. apply HF. right. exact Hin.
+  Qed.
+
+  (* ---- what the model computes stays in its domain *)
+  Lemma base_loop_wf (rec : classdef -> res amap) : forall fields acc r,
+      (forall k kd c' sub, In (k, Some (kd, c')) fields -> rec c' = Ok sub -> amap_wf sub = true) ->
+      forallb field_wf fields = true -> amap_wf acc = true ->
+      base_loop rec fields acc = Ok r -> amap_wf r = true.
+  Proof.
+    induction fields as [|[k fk] t IH]; intros acc r Hrec Hw Hacc Hr.
+    - inversion Hr; subst. exact Hacc.
+    - cbn [forallb] in Hw. apply andb_true_iff in Hw as [Hf Ht]. unfold field_wf in Hf. cbn [fst snd] in Hf.
+      apply andb_true_iff in Hf as [Hk Hc].
+      cbn [base_loop] in Hr.
+      destruct (base_step rec (k, fk) acc) as [a|e] eqn:Es; cbn [bind] in Hr; [|discriminate].
+      apply (IH a r); try assumption.
+      + intros k0 kd c' sub Hin. apply (Hrec k0 kd c' sub). right. exact Hin.
+      + clear IH Hr. cbn [base_step] in Es. destruct fk as [[kd c']|].
+        * destruct (rec c') as [sub|e] eqn:Er; cbn [bind] in Es; [|discriminate].
+          pose proof (Hrec k kd c' sub (or_introl eq_refl) Er) as Hsub.
+          inversion Es; subst. apply amap_wf_set; [|exact Hk|exact Hk].
+          destruct kd; [|destruct sub|destruct sub]; try exact Hacc;
+            (apply amap_wf_set; [exact Hacc|apply ascii_suffix; exact Hk|exact Hsub]).
+        * inversion Es; subst. apply amap_wf_set; [exact Hacc|exact Hk|exact Hk].
+  Qed.
+
+  Lemma agg_list_wf fs : forall c L r,
+      class_wf c = true -> (match L with Some l => forallb mapper_wf l | None => true end) = true ->
+      agg_list fs c L = Ok r -> amap_wf r = true.
+  Proof.
+    induction c as [fields ms IHc] using classdef_ind'; intros L r Hc HL Hr.
+    rewrite class_wf_eq in Hc. apply andb_true_iff in Hc as [Hms Hfs].
+    cbn [agg_list] in Hr.
+    destruct (base_loop (fun c' => agg_list fs c' None) fields []) as [base|e] eqn:Eb;
+      [|rewrite fold_add_raise in Hr; discriminate].
+    apply (fold_add_wf fs (match L with Some l => l | None => ms end) base r); [destruct L; assumption| |exact Hr].
+    apply (base_loop_wf (fun c' => agg_list fs c' None) fields [] base); [|exact Hfs|reflexivity|exact Eb].
+    intros k kd c' sub Hin Hsub. rewrite Forall_forall in IHc.
+    apply (IHc (k, Some (kd, c')) Hin None sub); [|reflexivity|exact Hsub].
+    rewrite forallb_forall in Hfs. specialize (Hfs _ Hin). unfold field_wf in Hfs. cbn [fst snd] in Hfs.
+    apply andb_true_iff in Hfs as [_ Hfs]. exact Hfs.
+  Qed.
+
+  (* ---- _set_base_mapper_no_op and aggregate_(de)serialization_mappers, together, by induction on the fuel *)
+  Definition Src_agg_fuel (h : heap) (fuel : nat) (fs : bool) : pyval -> pyval -> pyval -> res pyval :=
+    if fs then Src_aggregate_serialization_mappers_fuel h fuel
+    else Src_aggregate_deserialization_mappers_fuel h fuel.
+
+  Definition agg_ok (fuel : nat) : Prop :=
+    forall h fs c override camel,
+      (py_height (enc_class c) < fuel)%nat -> class_wf c = true -> override_wf override = true ->
+      Src_agg_fuel h fuel fs (enc_class c) (enc_override override) (PBool camel)
+      = enc_res (aggregate fs c override camel).
+
+  Definition base_ok (fuel : nat) : Prop :=
+    forall h fs c,
+      (py_height (enc_class c) <= fuel)%nat -> class_wf c = true ->
+      Src_set_base_mapper_no_op_fuel h fuel (enc_class c) (PBool fs) = enc_res (base_noop fs c).
+
+  Lemma bind_enc_res_id (r : res amap) : (t <- enc_res r ;; Ok t) = enc_res r.
+  Proof. destruct r; reflexivity. Qed.
+
+  Lemma agg_list_none fs c : agg_list fs c None = aggregate fs c None false.
+  Proof. destruct c as [fields ms]. unfold aggregate, used_list. cbn [cms]. rewrite app_nil_r. reflexivity. Qed.
+
+  (* `aggregate_serialization_mappers(x._ty) if for_serialization else aggregate_deserialization_mappers(x._ty)` *)
+  Lemma nested_agg_enc f h fs c' :
+    agg_ok f -> (py_height (enc_class c') < f)%nat -> class_wf c' = true ->
+    (c0 <- Ok (py_truthy (PBool fs)) ;;
+     if c0
+     then (t8 <- PyOpsFields.fld_getattr h (cref (enc_class c')) (s2p "_ty") ;;
+           t9 <- Src_aggregate_serialization_mappers_fuel h f t8 PNone (PBool false) ;; Ok t9)
+     else (t10 <- PyOpsFields.fld_getattr h (cref (enc_class c')) (s2p "_ty") ;;
+           t11 <- Src_aggregate_deserialization_mappers_fuel h f t10 PNone (PBool false) ;; Ok t11))
+    = enc_res (agg_list fs c' None).
+  Proof.
+    intros IHa Hh Hc. cbn [bind py_truthy].
+    change (PyOpsFields.fld_getattr h (cref (enc_class c')) (s2p "_ty")) with (Ok (enc_class c')).
+    cbn [bind]. rewrite agg_list_none.
+    pose proof (IHa h fs c' None false Hh Hc eq_refl) as E. unfold Src_agg_fuel in E. cbn [enc_override] in E.
+    destruct fs; rewrite E; apply bind_enc_res_id.
+  Qed.
+
+  Lemma setitem_self acc k : py_setitem (enc_amap acc) (PStr k) (PStr k) = Ok (enc_amap (alist_set acc k (Key k))).
+  Proof. apply (py_setitem_enc acc k (Key k)). Qed.
+
+  Lemma setitem_sub acc k sub :
+    py_setitem (enc_amap acc) (PStr k) (enc_amap sub) = Ok (enc_amap (alist_set acc k (Sub sub))).
+  Proof. rewrite <- (enc_mval_sub sub). apply py_setitem_enc. Qed.
+
+  Lemma truthy_amap (m : amap) : py_truthy (enc_amap m) = match m with [] => false | _ => true end.
+  Proof. destruct m; reflexivity. Qed.
+
+  Lemma base_step_ok f : agg_ok f -> base_ok (S f).
+  Proof.
+    intros IHa h fs [fields ms] Hh Hc.
+    cbn [Src_set_base_mapper_no_op_fuel]. cbv zeta.
+    rewrite enc_class_eq.
+    change (PyOpsFields.fld_getattr h
+              (PStruct (s2p "StructMeta")
+                       [(s2p "get_all_fields_by_name()", PDict (map enc_field fields));
+                        (s2p "get_aggregated_serialization_mapper()", PList (map enc_mapper ms));
+                        (s2p "get_aggregated_deserialization_mapper()", PList (map enc_mapper ms))])
+              (s2p "get_all_fields_by_name()"))
+      with (Ok (PDict (map enc_field fields))).
+    cbn [bind py_dict_items].
+    unfold base_noop. cbn [agg_list]. unfold fold_add. cbn [fold_left].
+    change (PDict []) with (enc_amap []).
+    rewrite class_wf_eq in Hc. apply andb_true_iff in Hc as [Hms Hfs].
+    rewrite (foldM_base_loop _ (fun c' => agg_list fs c' None) fields []).
+    - apply bind_enc_res_id.
+    - intros acc [k fk] Hin. cbn beta. unfold enc_field. cbn [fst snd base_step].
+      rewrite forallb_forall in Hfs. pose proof (Hfs _ Hin) as Hf. unfold field_wf in Hf. cbn [fst snd] in Hf.
+      apply andb_true_iff in Hf as [Hk Hcw].
+      destruct fk as [[kd c']|].
+      + (* a nested class *)
+        pose proof (height_nested fields ms k kd c' Hin) as Hn.
+        assert (Hlt : (py_height (enc_class c') < f)%nat) by lia.
+        pose proof (nested_agg_enc f h fs c' IHa Hlt Hcw) as Enest. cbn [bind] in Enest.
+        assert (Hsubwf : forall sub, agg_list fs c' None = Ok sub -> amap_wf sub = true)
+          by (intros sub Hs; apply (agg_list_wf fs c' None sub Hcw eq_refl Hs)).
+        destruct kd; cbv beta iota.
+        * (* ClassReference *)
+          destruct (cref_tests (enc_class c')) as [E1 _]. rewrite E1. cbn [bind].
+          rewrite Enest.
+          destruct (agg_list fs c' None) as [sub|e]; cbn [enc_res bind]; [|reflexivity].
+          cbn [PyOpsDerive.py_format bind]. rewrite setitem_sub. cbn [bind]. rewrite setitem_self. reflexivity.
+        * (* Array *)
+          destruct (coll_tests KArr (enc_class c')) as [E1 E2]; [discriminate|]. rewrite E1. cbn [bind]. rewrite E2. cbn [bind].
+          change (m_getattr_obj h (coll KArr (enc_class c')) (s2p "items")) with (Ok (cref (enc_class c'))).
+          cbn [bind]. destruct (cref_tests (enc_class c')) as [E3 E4]. rewrite E4. cbn [bind py_iter foldM].
+          rewrite E3. cbn [bind]. rewrite Enest.
+          destruct (agg_list fs c' None) as [sub|e] eqn:Es; cbn [enc_res bind]; [|reflexivity].
+          rewrite (m_dict_update_fresh sub (Hsubwf sub eq_refl)). cbn [bind]. rewrite truthy_amap.
+          destruct sub as [|e q]; cbn [bind].
+          -- rewrite setitem_self. reflexivity.
+          -- cbn [PyOpsDerive.py_format bind]. rewrite setitem_sub. cbn [bind]. rewrite setitem_self. reflexivity.
+        * (* Set *)
+          destruct (coll_tests KSet (enc_class c')) as [E1 E2]; [discriminate|]. rewrite E1. cbn [bind]. rewrite E2. cbn [bind].
+          change (m_getattr_obj h (coll KSet (enc_class c')) (s2p "items")) with (Ok (cref (enc_class c'))).
+          cbn [bind]. destruct (cref_tests (enc_class c')) as [E3 E4]. rewrite E4. cbn [bind py_iter foldM].
+          rewrite E3. cbn [bind]. rewrite Enest.
+          destruct (agg_list fs c' None) as [sub|e] eqn:Es; cbn [enc_res bind]; [|reflexivity].
+          rewrite (m_dict_update_fresh sub (Hsubwf sub eq_refl)). cbn [bind]. rewrite truthy_amap.
+          destruct sub as [|e q]; cbn [bind].
+          -- rewrite setitem_self. reflexivity.
+          -- cbn [PyOpsDerive.py_format bind]. rewrite setitem_sub. cbn [bind]. rewrite setitem_self. reflexivity.
+      + (* a plain field *)
+        destruct (plain_tests k) as (E1 & E2 & E3). rewrite E1. cbn [bind]. rewrite E2. cbn [bind].
+        rewrite E3. cbn [bind]. rewrite setitem_self. reflexivity.
+  Qed.
+
+  Lemma aggregate_fold fs c override camel :
+    aggregate fs c override camel = fold_add fs (used_list c override camel) (base_noop fs c).
+  Proof.
+    destruct c as [fields ms]. unfold aggregate, base_noop. cbn [agg_list]. unfold fold_add at 2. reflexivity.
+  Qed.
+
+  Definition chosen_list (ms : list mapper) (override : option amap) : list mapper :=
+    match override with Some ((_ :: _) as d) => [MDict d] | _ => ms end.
+
+  Lemma used_list_eq fields ms override camel :
+    used_list (Class fields ms) override camel = chosen_list ms override ++ (if camel then [MCamel] else []).
+  Proof. reflexivity. Qed.
+
+  (* the normalisation of `override_mapper` and the choice of the list *)
+  Lemma override_enc override :
+    (c <- m_isinstance mappers_class_table (enc_override override) [MC_k K_list] ;;
+     if c then Ok (enc_override override)
+     else (t4 <- (c0 <- Ok (py_truthy (enc_override override)) ;;
+                  if c0 then Ok (PList [enc_override override]) else Ok PNone) ;; Ok t4))
+    = Ok (match override with Some ((_ :: _) as d) => PList [enc_amap d] | _ => PNone end).
+  Proof. destruct override as [[|e q]|]; reflexivity. Qed.
+
+  Lemma chosen_enc override (ms : list mapper) (getter : res pyval) (t5 : pyval) :
+    t5 = match override with Some ((_ :: _) as d) => PList [enc_amap d] | _ => PNone end ->
+    getter = Ok (PList (map enc_mapper ms)) ->
+    (if py_truthy t5 then Ok t5 else (t7 <- getter ;; Ok t7))
+    = Ok (PList (map enc_mapper (chosen_list ms override))).
+  Proof. intros -> ->. destruct override as [[|e q]|]; reflexivity. Qed.
+
+  Lemma chosen_wf ms override :
+    forallb mapper_wf ms = true -> override_wf override = true -> forallb mapper_wf (chosen_list ms override) = true.
+  Proof.
+    intros Hms Ho. destruct override as [[|e q]|]; try exact Hms.
+    cbn [chosen_list forallb mapper_wf]. cbn [override_wf] in Ho. rewrite Ho. reflexivity.
+  Qed.
+
+  Lemma add_one_enc h fs m a :
+    mapper_wf m = true -> amap_wf a = true ->
+    (t14 <- Src_add_mapper_to_aggregation h (enc_mapper m) (enc_amap a) (PBool fs) ;; Ok t14)
+    = enc_res (add_agg fs m a).
+  Proof. intros Hm Ha. rewrite (src_add_mapper_to_aggregation h fs m a Hm Ha). apply bind_enc_res_id. Qed.
+
+  Ltac agg_tail h fs fields ms override camel Hc Ho :=
+    rewrite aggregate_fold, used_list_eq, fold_add_app;
+    let Hms := fresh "Hms" in let Hfs := fresh "Hfs" in
+    pose proof Hc as Hms; rewrite class_wf_eq in Hms; apply andb_true_iff in Hms as [Hms Hfs];
+    let base := fresh "base" in let e := fresh "e" in let Eb := fresh "Eb" in
+    destruct (base_noop fs (Class fields ms)) as [base|e] eqn:Eb;
+    [|rewrite !fold_add_raise; reflexivity];
+    cbn [enc_res bind];
+    let Hbase := fresh "Hbase" in
+    assert (Hbase : amap_wf base = true) by (apply (agg_list_wf fs (Class fields ms) (Some []) base Hc eq_refl Eb));
+    rewrite override_enc; cbn [bind];
+    erewrite (chosen_enc override ms); [|reflexivity|reflexivity]; cbn [bind py_iter];
+    pose proof (chosen_wf ms override Hms Ho) as HL;
+    rewrite (foldM_fold_add _ fs (chosen_list ms override) base HL Hbase);
+    [ let agg := fresh "agg" in let Ef := fresh "Ef" in
+      destruct (fold_add fs (chosen_list ms override) (Ok base)) as [agg|e] eqn:Ef;
+      [|rewrite fold_add_raise; reflexivity];
+      cbn [enc_res bind py_truthy];
+      destruct camel;
+      [ change (PEnum (s2p "mappers") (s2p "TO_CAMELCASE") (zint 2)) with (enc_mapper MCamel);
+        rewrite (add_one_enc h fs MCamel agg eq_refl (fold_add_wf fs _ base agg HL Hbase Ef)); reflexivity
+      | reflexivity ]
+    | let a := fresh "a" in let m := fresh "m" in let Hin := fresh "Hin" in let Ha := fresh "Ha" in
+      intros a m Hin Ha; cbn beta; apply add_one_enc; [|exact Ha];
+      rewrite forallb_forall in HL; apply HL; exact Hin ].
+
+  Lemma agg_step_ok f : base_ok f -> agg_ok (S f).
+  Proof.
+    intros IHb h fs [fields ms] override camel Hh Hc Ho.
+    assert (Hb : Src_set_base_mapper_no_op_fuel h f (enc_class (Class fields ms)) (PBool fs)
+                 = enc_res (base_noop fs (Class fields ms))) by (apply IHb; [lia|exact Hc]).
+    unfold Src_agg_fuel. destruct fs.
+    - cbn [Src_aggregate_serialization_mappers_fuel]. cbv zeta. rewrite Hb.
+      agg_tail h true fields ms override camel Hc Ho.
+    - cbn [Src_aggregate_deserialization_mappers_fuel]. cbv zeta. rewrite Hb.
+      agg_tail h false fields ms override camel Hc Ho.
+  Qed.
+
+  Theorem src_fuel_ok : forall fuel, agg_ok fuel /\ base_ok fuel.
+  Proof.
+    induction fuel as [|f [IHa IHb]].
+    - split.
+      + intros h fs c override camel Hh. lia.
+      + intros h fs [fields ms] Hh. rewrite enc_class_eq in Hh. cbn [py_height] in Hh. lia.
+    - split; [apply agg_step_ok; exact IHb|apply base_step_ok; exact IHa].
+  Qed.
+End Classes.
+
+(* ------------------------------------------------------------------ the functions as the callers see them *)
+
+(* [plain k] is the Field object of a field k that holds no nested class: ANY object of a class of the
+   package's table outside the ClassReference / Array / Set / StructureReference families *)
+Definition plain_ok (plain : pystr -> pyval) : Prop := forall k, plain_field (plain k) = true.
+
+Example plain_ok_satisfiable : plain_ok (fun _ => PStruct (s2p "Integer") []).
+Proof. intros k. vm_compute. reflexivity. Qed.
+
+(* _set_base_mapper_no_op(cls, for_serialization), for EVERY class of the model's domain *)
+Theorem src_set_base_mapper_no_op : forall plain, plain_ok plain -> forall h fs c,
+    class_wf c = true ->
+    Src_set_base_mapper_no_op h (enc_class plain c) (PBool fs) = enc_res (base_noop fs c).
+Proof.
+  intros plain Hp h fs c Hc. unfold Src_set_base_mapper_no_op.
+  apply (proj2 (src_fuel_ok plain Hp _)); [|exact Hc]. cbn [heights fold_right]. lia.
+Qed.
+
+(* aggregate_serialization_mappers(cls, override_mapper, camel_case_convert) *)
+Theorem src_aggregate_serialization_mappers : forall plain, plain_ok plain -> forall h c override camel,
+    class_wf c = true -> override_wf override = true ->
+    Src_aggregate_serialization_mappers h (enc_class plain c) (enc_override override) (PBool camel)
+    = enc_res (aggregate true c override camel).
+Proof.
+  intros plain Hp h c override camel Hc Ho. unfold Src_aggregate_serialization_mappers.
+  pose proof (proj1 (src_fuel_ok plain Hp (S (heights [enc_class plain c; enc_override override; PBool camel])))
+                    h true c override camel) as E.
+  unfold Src_agg_fuel in E. apply E; [|exact Hc|exact Ho]. cbn [heights fold_right]. lia.
+Qed.
+
+(* aggregate_deserialization_mappers(cls, override_mapper, camel_case_convert) *)
+Theorem src_aggregate_deserialization_mappers : forall plain, plain_ok plain -> forall h c override camel,
+    class_wf c = true -> override_wf override = true ->
+    Src_aggregate_deserialization_mappers h (enc_class plain c) (enc_override override) (PBool camel)
+    = enc_res (aggregate false c override camel).
+Proof.
+  intros plain Hp h c override camel Hc Ho. unfold Src_aggregate_deserialization_mappers.
+  pose proof (proj1 (src_fuel_ok plain Hp (S (heights [enc_class plain c; enc_override override; PBool camel])))
+                    h false c override camel) as E.
+  unfold Src_agg_fuel in E. apply E; [|exact Hc|exact Ho]. cbn [heights fold_right]. lia.
+Qed.
+
+(* with an explicit list of mappers: what C07's theorems about [agg_list] speak of *)
+Corollary src_aggregate_class_list : forall plain, plain_ok plain -> forall h (fs : bool) c,
+    class_wf c = true ->
+    (if fs then Src_aggregate_serialization_mappers h (enc_class plain c) PNone (PBool false)
+     else Src_aggregate_deserialization_mappers h (enc_class plain c) PNone (PBool false))
+    = enc_res (agg_list fs c None).
+Proof.
+  intros plain Hp h fs c Hc. rewrite agg_list_none.
+  destruct fs; [apply (src_aggregate_serialization_mappers plain Hp h c None false Hc eq_refl)
+               |apply (src_aggregate_deserialization_mappers plain Hp h c None false Hc eq_refl)].
+Qed.
+
+(* non-vacuity: the documented chain of Props/C07.v is inside the domain *)
+Example class_wf_satisfiable :
+  let nested := Class [(s2p "in_x", None)] [MCamel] in
+  let L := [MDict [(s2p "i", Key (s2p "j")); (s2p "s", Key (s2p "name"))]; MDict [(s2p "j", DoNot)]; MLower] in
+  class_wf (Class [(s2p "i", None); (s2p "s", None); (s2p "sub", Some (KRef, nested)); (s2p "arr", Some (KArr, nested))] L) = true
+  /\ override_wf (Some [(s2p "i", Key (s2p "x")); (s2p "sub._mapper", Sub [(s2p "in_x", Key (s2p "y"))])]) = true.
+Proof. split; vm_compute; reflexivity. Qed.
+
+Print Assumptions src_convert_to_camelcase.
+Print Assumptions src_enum_mappers_members.
+Print Assumptions src_apply_mapper.
+Print Assumptions src_apply_mapper_self.
+Print Assumptions src_add_mapper_to_aggregation.
+Print Assumptions src_set_base_mapper_no_op.
+Print Assumptions src_aggregate_serialization_mappers.
+Print Assumptions src_aggregate_deserialization_mappers.
+Print Assumptions src_aggregate_class_list.
